@@ -27,7 +27,7 @@ PROPERTY = "C09"
 FUNCTIONS = ["DefaultApplicationConfig.configure/create_io/resolve_help_command/print_version", "ConsoleApplication.run/resolve_command", "ArgvArgs.has_option_token", "HelpTextHandler.handle", "HelpResolver",
              "NameVersion.render", "Output._may_write (through the handler's writes)", "Question.ask (non-interactive)"]
 PART = {}
-EXTRA_BOUNDS = "also: handler writing flagged raw lines; two validated questions under -n; a nested sub-command named help; the command's own option before the switches; no_ansi_tty: streams that support ANSI themselves x {none, --ansi, --no-ansi} x 4 verbosities with a handler that draws a progress indicator, a progress bar and overwritten sections."
+EXTRA_BOUNDS = "also: handler writing flagged raw lines; two validated questions under -n; a nested sub-command named help; the command's own option before the switches; two_runs: two failing runs in one forked process, the second with --no-ansi / -q; no_ansi_tty: streams that support ANSI themselves x {none, --ansi, --no-ansi} x 4 verbosities with a handler that draws a progress indicator, a progress bar and overwritten sections."
 BOUNDS = {"quick": "3 commands (one nested) x quiet x {none,-v,-vv,-vvv} x {none,--ansi,--no-ansi} x no-interaction x {none, help, version} x long/short spelling x insertion position among the tokens after the command path x handler raises or not; the same switches after '--'",
           "thorough": "same plus two switches at different positions"}
 OUTSIDE = ["switches placed BEFORE the command name (the statement only requires help/version after the command path; a switch in front changes which tokens are leading)", "several verbosity switches or both --ansi and --no-ansi on one line",
@@ -276,6 +276,33 @@ def no_ansi_tty(base: int, mode: int, pos: int, verb: int, tty_out: bool, tty_er
     return untraced(_no_ansi_tty_case, conc_int(base, 0, 2), conc_int(mode, 0, 2), conc_int(pos, 0, 2), conc_int(verb, 0, 3), conc_bool(tty_out), conc_bool(tty_err))
 
 
+def _two_runs_case(first_ansi, verb1, verb2, second):
+    """Two runs in ONE process (each on a freshly built application): what the first run decorated must not show in the second."""
+    STATE["raises"], STATE["fancy"] = True, False
+    outs = []
+    for tokens in (["greet", "bob"] + ([VERB[verb1]] if VERB[verb1] else []) + (["--ansi"] if first_ansi else []),
+                   ["greet", "bob"] + ([VERB[verb2]] if VERB[verb2] else []) + [["--no-ansi"], [], ["-q"]][second]):
+        i = tokens.index("-v") if "-v" in tokens else -1
+        if i >= 0 and i + 1 < len(tokens) and not tokens[i + 1].startswith("-"):
+            return True
+        status, out, err = _run(build(), tokens)
+        if status == 0:
+            return False
+        outs.append(out + err)
+    if second == 2:
+        return outs[1] == ""
+    return "\x1b" not in outs[1] and "handler failed" in outs[1]
+
+
+def two_runs(first_ansi: bool, verb1: int, verb2: int, second: int) -> bool:
+    """
+    pre: 0 <= verb1 <= 3 and 0 <= verb2 <= 3 and 0 <= second <= 2
+    post: _
+    """
+    from vf.sym import isolated
+    return isolated(_two_runs_case, conc_bool(first_ansi), conc_int(verb1, 0, 3), conc_int(verb2, 0, 3), conc_int(second, 0, 2))
+
+
 def switches(q: bool, ansi: int, n: bool, hv: int, short: bool, pos: int, raises: bool, rotate: bool, own: bool) -> bool:
     """
     pre: 0 <= ansi <= 2 and 0 <= hv <= 2 and 0 <= pos <= 2
@@ -335,6 +362,8 @@ def conditions(tier):
     for vb in range(4):
         conds.append({"name": "after_dd[before=%s]" % (VERB[vb] or "none"), "fn": after_dd, "timeout": t, "part": {"vbefore": vb},
                       "bounds": "echo a %s -- <switches>: every subset as above, long/short, handler raises or not" % (VERB[vb] or "")})
+    conds.append({"name": "two_runs", "fn": two_runs, "timeout": t,
+                  "bounds": "two failing runs in one process (forked per case), the first with or without --ansi at any verbosity, the second with --no-ansi / no switch / -q at any verbosity: the second shows no escape byte (nothing at all under -q)"})
     conds.append({"name": "no_ansi_tty", "fn": no_ansi_tty, "timeout": t,
                   "bounds": "3 commands x {no switch, --ansi, --no-ansi} at every position x 4 verbosity switches x streams that do / do not support ANSI themselves; the handler draws a progress indicator, a progress bar and overwritten sections"})
     conds.append({"name": "switches_twin", "fn": switches_twin, "timeout": t, "expect": "refute", "part": {"base": 0, "verb": 2}, "bounds": "reachability twin"})
